@@ -364,8 +364,15 @@ func t1Slots(p *Prog, o *obls, fn *ssa.Function, spec refcountSpec, found *int) 
 				if g == nil || !p.InUniverse(g) {
 					return
 				}
-				if pi, ok := releasesSlotParam(p, g, spec); ok && pi < len(c.Call.Args) && p.pureKey(c.Call.Args[pi]) == idxKey {
-					delegated = true
+				if pi, ok := releasesSlotParam(p, g, spec); ok && pi < len(c.Call.Args) {
+					if !slotParamModular[g] && p.pureKey(c.Call.Args[pi]) == idxKey {
+						delegated = true
+					}
+					// the helper is told the sequence number and reduces it itself (`idx := seq % r.size`): the store's
+					// index is the same reduction of the same number
+					if bo, isBo := p.origin(ia.Index).(*ssa.BinOp); slotParamModular[g] && isBo && bo.Op == token.REM && p.pureKey(bo.X) == p.pureKey(c.Call.Args[pi]) {
+						delegated = true
+					}
 				}
 			})
 			if delegated {
@@ -577,6 +584,9 @@ func t2Tag(p *Prog, o *obls, fn *ssa.Function, spec refcountSpec) {
 
 // releasesSlotParam: g loads ring[param], and on the path where that element is non-nil releases it exactly once
 // before every return; returns the index of that parameter.
+// slotParamModular: the helper reduces the parameter modulo the ring size itself.
+var slotParamModular = map[*ssa.Function]bool{}
+
 func releasesSlotParam(p *Prog, g *ssa.Function, spec refcountSpec) (int, bool) {
 	res, found := -1, false
 	instrsOf(g, func(in ssa.Instruction) {
@@ -594,8 +604,22 @@ func releasesSlotParam(p *Prog, g *ssa.Function, spec refcountSpec) (int, bool) 
 			return
 		}
 		par, ok := p.origin(ia.Index).(*ssa.Parameter)
+		modular := false
 		if !ok {
-			return
+			// idx := seq % r.size with seq the parameter
+			bo, isBo := p.origin(ia.Index).(*ssa.BinOp)
+			if !isBo || bo.Op != token.REM {
+				return
+			}
+			if par, ok = p.origin(bo.X).(*ssa.Parameter); !ok {
+				return
+			}
+			if u2, isLoad := p.origin(bo.Y).(*ssa.UnOp); !isLoad || u2.Op != token.MUL {
+				return
+			} else if _, isField := u2.X.(*ssa.FieldAddr); !isField {
+				return
+			}
+			modular = true
 		}
 		isRelease := func(i2 ssa.Instruction) bool {
 			c, ok := i2.(*ssa.Call)
@@ -621,6 +645,7 @@ func releasesSlotParam(p *Prog, g *ssa.Function, spec refcountSpec) (int, bool) 
 			for i, pp := range g.Params {
 				if pp == par {
 					res, found = i, true
+					slotParamModular[g] = modular
 				}
 			}
 		}
